@@ -89,6 +89,7 @@ void run_C17(vh::Ctx& c) {
         double a = r.normal() * std::pow(10.0, r.range(-10, 10)), w = r.logu(1e-10, 1e10) * (std::fabs(a) > 0 ? std::max(1.0, std::fabs(a) * 1e-6) : 1.0);
         if (r.coin(0.2)) a = 0;
         if (r.coin(0.2)) { a = (double)r.range(-5, 5); w = (double)r.range(1, 40); }
+        if (r.coin(0.15)) { double sc = std::pow(10.0, -r.range(12, 290)); a = r.normal() * sc * (r.coin(0.3) ? 0 : 1); w = r.logu(0.01, 100) * sc; }  // tiny absolute scales: a<b is all that is required
         double b = a + w;
         if (!(b > a)) b = std::nextafter(a, INFINITY);  // the property is about a<b; w may vanish against a large |a|
         what = vh::fmt("linear grid nx=%u [%.17g,%.17g]", nx, a, b);
@@ -102,6 +103,7 @@ void run_C17(vh::Ctx& c) {
       } else if (kind == 1) {  // logarithmic (the library documents a refusal below 1e-10)
         double a = r.logu(1e-10, 1e8), b = a * r.logu(1.0 + 1e-6, 1e10);
         if (r.coin(0.2)) { a = 1; b = 1000; }
+        if (r.coin(0.15)) { a = r.logu(1e-10, 1e-8); b = a * (1 + std::pow(10.0, -r.range(2, 13))); if (!(b > a)) b = std::nextafter(a, INFINITY); }  // narrow ranges at the small end
         what = vh::fmt("log grid nx=%u [%.17g,%.17g]", nx, a, b);
         c.desc(what);
         req_a = a; req_b = b;
